@@ -36,7 +36,20 @@ Regs2 == {RegSI, RegOdd}
 \* registries whose amount unit is one of chempy's own prefixed units
 RegsOwn == { [length |-> "dm", mass |-> "g", time |-> "s", current |-> "A", temperature |-> "K", amount |-> a] :
              a \in {"micromole", "nanomole"} }
-ASSUME \A r \in Regs108 \cup Regs12 \cup RegsOwn : IsReg(r)
+\* registries whose entries are scaled quantities (number * unit), wholly or in part
+Fac(l, m, t, c, th, n) == [length |-> l, mass |-> m, time |-> t, current |-> c, temperature |-> th, amount |-> n]
+Q1 == ZeroScale
+RegsScaled == {
+    [length |-> "m", mass |-> "kg", time |-> "s", current |-> "A", temperature |-> "K", amount |-> "mol",
+     factors |-> Fac(S(-1, 0, -1, 0, 0), S(-3, 0, -3, 0, 0), S(2, 1, 1, 0, 0), Q1, Q1, S(-6, 0, -6, 0, 0))],
+    [length |-> "cm", mass |-> "g", time |-> "min", current |-> "mA", temperature |-> "K", amount |-> "mmol",
+     factors |-> Fac(S(1, 0, 1, 0, 0), Q1, S(-2, -1, -1, 0, 0), S(3, 0, 3, 0, 0), Q1, S(-3, 0, -3, 0, 0))],
+    [length |-> "dm", mass |-> "kg", time |-> "ms", current |-> "A", temperature |-> "K", amount |-> "umol",
+     factors |-> Fac(Q1, Q1, S(-3, 0, 0, 0, 0), Q1, S(1, 0, 0, 0, 0), S(0, 1, 0, 0, 0))] }
+ASSUME \A r \in Regs108 \cup Regs12 \cup RegsOwn \cup RegsScaled : IsReg(r)
+Regs12s == Regs12 \cup RegsScaled
+Regs108s == Regs108 \cup RegsScaled
+Regs2s == Regs2 \cup RegsScaled
 
 Kinds_all == AllKinds
 Keys_all == AllKeys
@@ -62,5 +75,5 @@ Plan_inv == <<{"convert", "via", "scale", "incompatible", "container", "dimensio
 
 \* the catalog, the derived-unit keys and the registries for the seeded generator of the binding layer
 EmitCatalog == (stage = "build") => PrintT(<<"CASE", ToJson([in |-> [x |-> 0], cls |-> "catalog",
-                 exp |-> [cat |-> Cat, keys |-> SetToSeq(AllKeys), regs |-> SetToSeq(Regs108 \cup RegsOwn)]])>>)
+                 exp |-> [cat |-> Cat, keys |-> SetToSeq(AllKeys), regs |-> SetToSeq(Regs108 \cup RegsOwn \cup RegsScaled)]])>>)
 =============================================================================
